@@ -32,8 +32,14 @@ def _worker(args):
         bb = common.build_bb(case)
         for dc in dcases:
             try:
-                d = consistency_diagnostics(bb, extended=dc["extended"], uses_facts=dc["uses_facts"],
-                                            facts=[common.to_pysmt(f, case["sig"]) for f in dc["facts"]], on_inconsistent="silent")
+                fl = [common.to_pysmt(f, case["sig"]) for f in dc["facts"]]
+                pre = None
+                if dc.get("precomputed") and dc["uses_facts"] and fl:
+                    # as the ranking objects call it: the partition of base + facts is handed over, the base's own is not
+                    from inference.consistency_diagnostics import augment_belief_base_with_facts
+                    from inference.consistency_sat import consistency as _cons
+                    pre = {("combined_extended" if dc["extended"] else "combined_standard"): _cons(augment_belief_base_with_facts(bb, fl), weakly=dc["extended"])}
+                d = consistency_diagnostics(bb, extended=dc["extended"], uses_facts=dc["uses_facts"], facts=fl, on_inconsistent="silent", **({"precomputed": pre} if pre else {}))
                 out["diag"][dc["id"]] = [d.get("facts_consistent"), d.get("belief_base_consistent"), d.get("belief_base_weakly_consistent"),
                                          d.get("combination_consistent"), d.get("combination_infinity_increase")]
             except ValueError:
@@ -100,7 +106,7 @@ def run(tier, seed, broken_proof=False):
             for (ext, uf) in ((False, False), (False, True), (True, False), (True, True)):
                 nf = rng.randrange(0, 4) if uf and rng.random() < 0.1 else (rng.randrange(1, 4) if uf else 0)
                 facts = [gen_formula(rng, c["n"], 1, 0.05) for _ in range(nf)]
-                dcs.append({"id": "%s-d%d%d" % (c["id"], ext, uf), "n": c["n"], "base": c["base"], "facts": facts, "extended": ext, "uses_facts": uf})
+                dcs.append({"id": "%s-d%d%d" % (c["id"], ext, uf), "n": c["n"], "base": c["base"], "facts": facts, "extended": ext, "uses_facts": uf, "precomputed": rng.random() < 0.5})
         for dc in dcs:
             dcases_all[dc["id"]] = dc
         refuse = False
